@@ -488,3 +488,100 @@ equivalent("c17-eq-pop-rule-demorgan", ["C17", "C06"], (T, """                  
                     if not ((left and not (element.precedence > top.precedence)) or (right and top.precedence > element.precedence)):
                         break
                     queue.append(stack.pop())"""))
+
+# ------------------------------------------------------------------------------------------ C16 / C06 automata
+mutant("c16-regress-stack-flag", "C16", (R, "            if state & (s_hedge | s_term):\n                raise SyntaxError(f\"expected hedge or term, but found '{token}'\")\n\n        if len(stack) != 1:", "            if stack & (s_hedge | s_term):\n                raise SyntaxError(f\"expected hedge or term, but found '{token}'\")\n\n        if len(stack) != 1:"), "F-end/Antecedent.load")
+mutant("c16-consequent-end-raise-deleted", "C16", (R, """            if state & s_is:
+                raise SyntaxError(f"consequent expected keyword '{Rule.IS}' after '{token}'")
+            if state & (s_hedge | s_term):
+                raise SyntaxError(f"consequent expected hedge or term after '{token}' ")
+""", """            if state & s_is:
+                raise SyntaxError(f"consequent expected keyword '{Rule.IS}' after '{token}'")
+"""), "F-end/Consequent.load")
+mutant("c16-after-is-accepts-variable", ["C16", "C06"], (R, """                if Rule.IS == token:
+                    state = s_hedge | s_term
+                    settings.logger.debug(f"token '{token}' is a keyword")""", """                if Rule.IS == token:
+                    state = s_variable | s_and_or
+                    settings.logger.debug(f"token '{token}' is a keyword")"""), "Antecedent.load")
+mutant("c16-boolean-raises-typeerror", "C16", (I, """        raise SyntaxError(f"expected boolean in {['true', 'false']}, but got '{fll}'")""", """        raise TypeError(f"expected boolean in {['true', 'false']}, but got '{fll}'")"""), "X2/FllImporter.boolean")
+mutant("c16-expression-before-root-check", "C16", (R, """        if len(stack) != 1:
+            errors = " ".join(str(element) for element in stack)
+            raise SyntaxError(f"unable to parse the following expressions: {errors}")
+
+        self.expression = stack.pop()""", """        self.expression = stack[-1] if stack else None
+        if len(stack) != 1:
+            errors = " ".join(str(element) for element in stack)
+            raise SyntaxError(f"unable to parse the following expressions: {errors}")
+"""), "O9/Antecedent.load/commit-last")
+mutant("c16-two-operand-guard-removed", ["C16", "C06"], (R, """                    if len(stack) < 2:
+                        raise SyntaxError(
+                            f"operator '{token}' expects 2 operands, but found {len(stack)}"
+                        )
+""", ""), "Antecedent.load")
+mutant("c16-rule-accepts-trailing-token", "C16", (R, """            elif state == s_end:
+                raise SyntaxError(f"unexpected token '{token}' in rule '{text}'")""", """            elif state == s_end:
+                pass"""), "F1/Rule.parse")
+mutant("c16-rule-missing-then-accepted", "C16", (R, """        if state == s_if:
+            raise SyntaxError(f"expected keyword '{Rule.THEN}' in rule '{text}'")
+""", ""), "Rule.parse") if False else None
+mutant("c16-rule-empty-consequent-accepted", "C16", (R, """        if not consequent:
+            raise SyntaxError(f"expected a consequent in rule '{text}'")
+""", ""), "F-end/Rule.parse")
+mutant("c16-rule-weight-missing-accepted", "C16", (R, """        if state == s_with:
+            raise SyntaxError(f"expected the rule weight in rule '{text}'")
+""", ""), "F-end/Rule.parse")
+mutant("c16-consequent-and-after-hedge", "C16", (R, """            if state & s_and and Rule.AND == token:
+                state = s_variable
+                continue""", """            if Rule.AND == token:
+                state = s_variable
+                continue"""), "F1/Consequent.load")
+mutant("c16-consequent-conclusions-appended-early", "C16", (R, """                    proposition = Proposition(variable)
+                    conclusions.append(proposition)
+                    state = s_is
+                    continue
+
+            if state & s_is and Rule.IS == token:""", """                    proposition = Proposition(variable)
+                    self.conclusions.append(proposition)
+                    conclusions.append(proposition)
+                    state = s_is
+                    continue
+
+            if state & s_is and Rule.IS == token:"""), "O9/Consequent.load/commit-last")
+mutant("c16-term-values-unguarded", "C16", (I, """        if len(values) < 2:
+            raise SyntaxError(f"expected format 'term: name Term [parameters]', but got '{fll}'")
+""", ""), "X4/FllImporter.term")
+mutant("c16-any-keeps-expecting-term", ["C16", "C06"], (R, "state = s_variable | s_and_or if isinstance(hedge, Any) else s_hedge | s_term", "state = s_hedge | s_term"), "F1/Antecedent.load")
+mutant("c16-hedge-before-is", ["C16", "C06"], (R, """                    proposition = Proposition(variable)
+                    stack.append(proposition)
+                    state = s_is""", """                    proposition = Proposition(variable)
+                    stack.append(proposition)
+                    state = s_is | s_hedge"""), "F1/Antecedent.load")
+mutant("c16-proposition-none-deref", "C16", (R, """        s_variable, s_is, s_hedge, s_term, s_and_or = (2**i for i in range(5))
+        state = s_variable
+""", """        s_variable, s_is, s_hedge, s_term, s_and_or = (2**i for i in range(5))
+        state = s_variable | s_hedge
+"""), "Antecedent.load")
+equivalent("c16-eq-flag-values", ["C16", "C06"], (R, "        s_variable, s_is, s_hedge, s_term, s_and_or = (2**i for i in range(5))", "        s_and_or, s_term, s_hedge, s_is, s_variable = (2**i for i in range(5))"))
+equivalent("c16-eq-reorder-state-blocks", ["C16"], (R, """            if state & s_is and Rule.IS == token:
+                state = s_hedge | s_term
+                continue
+
+            if state & s_hedge:
+                factory = settings.factory_manager.hedge
+                if token in factory:
+                    hedge = factory.construct(token)
+                    proposition.hedges.append(hedge)  # type: ignore
+                    state = s_hedge | s_term
+                    continue
+""", """            if state & s_hedge:
+                factory = settings.factory_manager.hedge
+                if token in factory:
+                    hedge = factory.construct(token)
+                    proposition.hedges.append(hedge)  # type: ignore
+                    state = s_hedge | s_term
+                    continue
+
+            if state & s_is and Rule.IS == token:
+                state = s_hedge | s_term
+                continue
+"""))
